@@ -1,4 +1,5 @@
 import LinfaSpec.Proofs.Fold
+import LinfaSpec.Proofs.FoldCv
 
 /-!
 # C01 — K-fold splitting partitions the samples and leaves the dataset intact
@@ -117,5 +118,130 @@ theorem fold_rows_stay_paired {α β} (k : Nat) (rs : List α) (ts : List β)
   simp only [hz, ← hlen, List.getElem?_map, List.getElem?_range hi', Option.map_some, Option.getD_some]
   simp only [List.zip, List.take_zipWith, List.drop_zipWith]
   rw [List.zipWith_append (by simp [hlen])]
+
+/-! ## `iter_fold`: in-place block swapping on the flat buffers -/
+
+/-- **restoration + what the closure sees**, for every `n`, every `0 < k ≤ n`, every
+record width `p` and target width `t`: `iter_fold` succeeds, the buffers are
+handed back exactly as they were, fold `i`'s training view is the buffer with
+blocks `0` and `i` exchanged minus its first block, and the validation views are
+the first `k` chunks of the (restored) buffers. -/
+theorem iterFold_spec {α β} (n k p t : Nat) (recs : List α) (tgts : List β)
+    (hk : 0 < k) (hn : k ≤ n) (hr : recs.length = n * p) (hg : tgts.length = n * t) :
+    iterFold n k p t recs tgts = some
+      { trains := (List.range k).map fun i =>
+          ((swapBlock recs i (n / k) p).drop (n / k * p), (swapBlock tgts i (n / k) t).drop (n / k * t)),
+        valids := ((chunks (n / k * p) recs).take k).zip ((chunks (n / k * t) tgts).take k),
+        finalR := recs, finalT := tgts } := by
+  have hkn : k * (n / k) ≤ n := Nat.mul_div_le n k
+  have h1 : k * (n / k * p) ≤ recs.length := by
+    rw [hr, ← Nat.mul_assoc]; exact Nat.mul_le_mul_right _ hkn
+  have h2 : k * (n / k * t) ≤ tgts.length := by
+    rw [hg, ← Nat.mul_assoc]; exact Nat.mul_le_mul_right _ hkn
+  unfold iterFold
+  simp only [show ¬ (k = 0 ∨ n < k) by omega, if_false]
+  rw [iterGo_spec (n / k) p t k recs tgts h1 h2 k 0 (by omega)]
+  simp
+
+example : (iterFold 5 2 1 1 [0, 1, 2, 3, 4] [10, 11, 12, 13, 14]).map (·.trains) =
+    some [([2, 3, 4], [12, 13, 14]), ([0, 1, 4], [10, 11, 14])] := by decide
+
+/-- **restoration**, as a statement about every successful call -/
+theorem iterFold_restores {α β} (n k p t : Nat) (recs : List α) (tgts : List β)
+    (hk : 0 < k) (hn : k ≤ n) (hr : recs.length = n * p) (hg : tgts.length = n * t)
+    (o : IterFoldOut α β) (h : iterFold n k p t recs tgts = some o) :
+    o.finalR = recs ∧ o.finalT = tgts := by
+  rw [iterFold_spec n k p t recs tgts hk hn hr hg] at h
+  cases h; exact ⟨rfl, rfl⟩
+
+/-- **row integrity of the in-place swap**: on a row-major buffer (`rows.flatten`, every
+row `p` cells wide) the training view of fold `i` consists of whole rows — it is
+`flatten` of a list of original rows — and that list is a permutation of the
+complement of block `i`.  The same `(i, n/k)` selects the rows of the records
+and of the targets, so rows stay paired. -/
+theorem iterFold_train_rows {α} (rows : List (List α)) (p i fs : Nat)
+    (hrow : ∀ r ∈ rows, r.length = p) (hlen : (i + 1) * fs ≤ rows.length) :
+    (swapBlock rows.flatten i fs p).drop (fs * p) = ((swapBlock rows i fs 1).drop fs).flatten ∧
+    ((swapBlock rows i fs 1).drop fs).Perm (rows.take (i * fs) ++ rows.drop ((i + 1) * fs)) := by
+  refine ⟨?_, swapBlock_drop_perm rows i fs hlen⟩
+  rw [swapBlock_flatten rows p i fs hrow]
+  have hsw : ∀ r ∈ swapBlock rows i fs 1, r.length = p := by
+    intro r hr
+    unfold swapBlock at hr
+    by_cases hi : i = 0
+    · simp only [hi, if_true] at hr; exact hrow r hr
+    · simp only [hi, if_false, List.mem_append] at hr
+      rcases hr with ((hr | hr) | hr) | hr
+      · exact hrow r (List.mem_of_mem_drop (List.mem_of_mem_take hr))
+      · exact hrow r (List.mem_of_mem_take (List.mem_of_mem_drop hr))
+      · exact hrow r (List.mem_of_mem_take hr)
+      · exact hrow r (List.mem_of_mem_drop hr)
+  exact drop_flatten_uniform _ p fs hsw
+
+/-- the swap used by `iter_fold` is an involution (the reason the dataset is restored) -/
+theorem swap_block_involutive {α} (buf : List α) (i fs s : Nat)
+    (hlen : (i + 1) * (fs * s) ≤ buf.length) :
+    swapBlock (swapBlock buf i fs s) i fs s = buf :=
+  swapBlock_involutive buf i fs s hlen
+
+/-! ## `cross_validate` -/
+
+/-- a failing fit surfaces as that error: the first failing model of the fold, whatever
+the evaluations would have said -/
+theorem cvFold_fit_error {ε σ} (pre : List (Except ε Unit)) (e : ε) (post : List (Except ε Unit))
+    (evals : List (Except ε (List σ))) (hpre : ∀ a ∈ pre, a = .ok ()) :
+    cvFold (pre ++ .error e :: post) evals = .error e := by
+  unfold cvFold
+  rw [mapM_except_error id pre (.error e) post e (fun a ha => ⟨(), hpre a ha⟩) rfl]
+
+/-- with all fits fine, the first failing evaluation surfaces -/
+theorem cvFold_eval_error {ε σ} (fits : List (Except ε Unit)) (hf : ∀ a ∈ fits, a = .ok ())
+    (pre : List (Except ε (List σ))) (e : ε) (post : List (Except ε (List σ)))
+    (hpre : ∀ a ∈ pre, ∃ v, a = .ok v) :
+    cvFold fits (pre ++ .error e :: post) = .error e := by
+  unfold cvFold
+  obtain ⟨bs, hbs, _⟩ := mapM_except_ok id fits (fun a ha => ⟨(), hf a ha⟩)
+  rw [hbs]
+  exact mapM_except_error id pre (.error e) post e hpre rfl
+
+/-- **the first failing fold (in fold order) decides the result** -/
+theorem cv_error_first {ε σ} [Add σ] [Div σ] [OfNat σ 0] [NatCast σ] (k m t : Nat)
+    (pre : List (List (Except ε Unit) × List (Except ε (List σ))))
+    (f : List (Except ε Unit) × List (Except ε (List σ)))
+    (post : List (List (Except ε Unit) × List (Except ε (List σ)))) (e : ε)
+    (hpre : ∀ a ∈ pre, ∃ v, cvFold a.1 a.2 = .ok v) (hf : cvFold f.1 f.2 = .error e) :
+    crossValidate k m t (pre ++ f :: post) = .error e := by
+  unfold crossValidate
+  rw [mapM_except_error (fun f => cvFold f.1 f.2) pre f post e hpre hf]
+
+/-- **the reported score is the arithmetic mean over the folds**: if every fold's fits and
+evaluations succeed with `m × t` score matrices `fes`, entry `(model i, target j)` of
+the result is `(Σ_f fes[f][i][j]) / k`. -/
+theorem cv_is_mean {ε σ} [Field σ] (k m t : Nat)
+    (folds : List (List (Except ε Unit) × List (Except ε (List σ))))
+    (fes : List (List (List σ)))
+    (hok : folds.mapM (fun f => cvFold f.1 f.2) = .ok fes)
+    (hshape : ∀ fe ∈ fes, Shaped m t fe) :
+    ∃ res, crossValidate k m t folds = .ok res ∧ res.length = m ∧
+      ∀ i j, i < m → j < t →
+        entry res i j = (fes.map (entry · i j)).sum / (k : σ) := by
+  unfold crossValidate
+  rw [hok]
+  obtain ⟨hs, he⟩ := foldl_acc m t _ (zero_shaped (σ := σ) m t) (entry_zero m t) fes hshape _
+    (zero_shaped m t)
+  refine ⟨_, rfl, by simp [hs.1], ?_⟩
+  intro i j hi hj
+  have hlen : i < (fes.foldl (fun acc fe => addMat acc
+      (addMat (List.replicate m (List.replicate t (0 : σ))) fe))
+      (List.replicate m (List.replicate t (0 : σ)))).length := by rw [hs.1]; exact hi
+  have := he i j hi hj
+  rw [entry_zero, zero_add] at this
+  rw [← this]
+  have hrow := hs.2 _ (List.getElem_mem hlen)
+  simp only [entry, List.getElem?_map, List.getElem?_eq_getElem hlen, Option.map_some,
+    Option.getD_some, List.getElem?_eq_getElem (show j < _ by rw [hrow]; exact hj)]
+
+example : crossValidate (ε := String) (σ := Nat) 2 1 1
+    [([.ok ()], [.ok [2]]), ([.ok ()], [.ok [4]])] = .ok [[3]] := by decide
 
 end LinfaSpec.Props.C01
